@@ -444,13 +444,14 @@ static void IsoAllCuts(const J & beh, int everyNth)
 static int IsoReplay(int argc, char ** argv)
 {
    if (argc < 5) return 2;
-   std::vector<J> behs; if (!ReadCases(argv[2], behs)) {fprintf(stderr, "cannot read %s\n", argv[2]); return 3;}
+   CaseStream in(argv[2]); if (!in.Ok()) {fprintf(stderr, "cannot read %s\n", argv[2]); return 3;}
    if (!OpenReport(argv[3])) return 3;
    std::mt19937 rng((unsigned) atoi(argv[4])); const int everyNth = (argc > 5) ? atoi(argv[5]) : 1;
    const double t0 = Now();
-   for (size_t i=0; (i<behs.size())&&(g_violCases < 25); i++) { g_cases++;
-      SetCur(mj::ToString(behs[i]).substr(0, 6000));
-      if (behs[i]["cuts"].str() == "all") IsoAllCuts(behs[i], everyNth < 1 ? 1 : everyNth); else IsoBehaviour(behs[i], rng); }
+   J beh;
+   while ((g_violCases < 25)&&(in.Next(beh))) { g_cases++;
+      SetCur(mj::ToString(beh));
+      if (beh["cuts"].str() == "all") IsoAllCuts(beh, everyNth < 1 ? 1 : everyNth); else IsoBehaviour(beh, rng); }
    J s = J::Obj(); s.set("summary", J::Bool(true)).set("behaviours", J::Int(g_cases)).set("followed", J::Int(g_isoFollowed)).set("drifted", J::Int(g_isoDrifted)).set("violating_cases", J::Int(g_violCases))
       .set("steps", J::Int(g_isoSteps)).set("server_runs", J::Int(g_isoRuns)).set("cut_runs", J::Int(g_isoCutRuns)).set("probes", J::Int(g_isoProbes)).set("wall_ms", J::Int((int64_t) ((Now()-t0)*1000)));
    RepJ(s); return 0;
@@ -479,7 +480,7 @@ static int IsoRandom(int argc, char ** argv)
          Client * actor = alive[rng() % alive.size()]; J st = J::Obj(); char when[96]; g_isoSteps++;
          if ((k > 2)&&((rng() % 12) == 0)) { // a departure, half the time in the middle of a Message
             snprintf(when, sizeof(when), "step %d (Depart %s)", k+1, actor->name.c_str()); SetStage(when);
-            st.set("a", J::Str("Depart")).set("who", J::Str(actor->name)); hist.push(st); SetCur(mj::ToString(hist).substr(0, 6000));
+            st.set("a", J::Str("Depart")).set("who", J::Str(actor->name)); hist.push(st); SetCur(mj::ToString(hist));
             if (rng() & 1) {MessageRef pm = Msg(PR_COMMAND_SETDATA); pm()->AddMessage("late", Msg(5)); const std::string wb = Wire(*pm()); const size_t n = 1 + (rng() % (wb.size()-1)); actor->Flush(); ssize_t r = write(actor->sock.GetFileDescriptor(), wb.data(), n); (void) r; if (rng() & 1) iw.w.PumpOnce();}
             iw.w.Close(actor); iw.w.Settle();
             // the remaining clients: nothing to prune (they did not unsubscribe)
@@ -487,7 +488,7 @@ static int IsoRandom(int argc, char ** argv)
             CheckErased(iw, actor->name, &cur, nxt, when); cur = nxt; }
          else { const size_t ci = rng() % menu.size();
             snprintf(when, sizeof(when), "step %d (Cmd %s #%zu)", k+1, actor->name.c_str(), ci+1);
-            st.set("a", J::Str("Cmd")).set("who", J::Str(actor->name)).set("ci", J::Int((int64_t) ci+1)).set("cmd", menu[ci]); hist.push(st); SetCur(mj::ToString(hist).substr(0, 6000));
+            st.set("a", J::Str("Cmd")).set("who", J::Str(actor->name)).set("ci", J::Int((int64_t) ci+1)).set("cmd", menu[ci]); hist.push(st); SetCur(mj::ToString(hist));
             nxt = FullView(); DoCommandStep(iw, st, cur, nxt, when); cur = nxt; }
          if (logIt) { // the observed state, flat, in the specification's vocabulary
             const Snap & sn = cur.sn;
